@@ -734,6 +734,13 @@ func genRelayPlan(seed uint64, tier string, focus string) *Plan {
 		}
 		if g.chance(40) {
 			op.S["answer"] = g.pick("200", "180,200", "100,200", "404", "183")
+			if g.chance(12) {
+				// a callee that takes minutes to answer: whatever the proxy keeps for the transaction must survive its sweeps
+				if op.I == nil {
+					op.I = map[string]int{}
+				}
+				op.I["answerLateS"] = g.rng(61, 200)
+			}
 		}
 		if burst && g.chance(60) && op.S["answer"] == "" {
 			op.Settle = false // processed concurrently with what follows
@@ -976,6 +983,7 @@ func (st *relayState) judgeBurst(pending []*Op) {
 	}
 	// answers
 	var answered []*Op
+	var maxLate time.Duration
 	for _, op := range pending {
 		if op.S["answer"] == "" {
 			continue
@@ -989,12 +997,19 @@ func (st *relayState) judgeBurst(pending []*Op) {
 			code, _ := strconv.Atoi(status)
 			// a provisional answer precedes the final one (a provisional that
 			// arrives after the final response is outside C12's statement)
-			if rop := st.injectAnswer(j, code, time.Duration(k)*2*time.Millisecond); rop != nil {
+			late := time.Duration(op.I["answerLateS"]) * time.Second
+			if late > maxLate {
+				maxLate = late
+			}
+			if rop := st.injectAnswer(j, code, late+time.Duration(k)*2*time.Millisecond); rop != nil {
 				answered = append(answered, rop)
 			}
 		}
 	}
-	if len(answered) > 0 && w.K.Settle(10*time.Second) {
+	if maxLate > 0 {
+		w.stat("probe:answer-minutes-late")
+	}
+	if len(answered) > 0 && w.K.Settle(10*time.Second+maxLate) {
 		for _, rop := range answered {
 			st.judgeAnswer(rop)
 		}
@@ -1094,6 +1109,12 @@ func (st *relayState) judgeAnswer(rop *Op) {
 	if len(ems) != 1 {
 		st.v("C02", "answer-not-relayed-exactly-once", rop.ID, sig+fmt.Sprintf(";n=%d", len(ems)), "the answer to relayed request %s (arrived over %s from %s:%d) was relayed %d time(s)", reqOp.ID, reqOp.Proto, reqOp.SrcIP, j.srcPort, len(ems))
 		if len(ems) == 0 {
+			if l.receivedSupport() && !cross {
+				// C07: "consequently the response travels back to the packet's true source"; the cross-listen-entry
+				// case is the open finding KF-C02-1 and is left to C02
+				st.judged("C07")
+				st.v("C07", "answer-never-reached-true-source", rop.ID, fmt.Sprintf("ingress=%s;rport=%v", reqOp.Proto, askedRport), "the answer to %s was not relayed at all; the request's true source is %s:%d (arrived over %s)", reqOp.ID, reqOp.SrcIP, j.srcPort, reqOp.Proto)
+			}
 			return
 		}
 	}
@@ -1103,6 +1124,9 @@ func (st *relayState) judgeAnswer(rop *Op) {
 	st.judged("C07")
 	if reqOp.Proto == "tcp" {
 		st.judged("C12")
+		if !sameConn && l.receivedSupport() && !cross && (eip != reqOp.SrcIP || askedRport && eport != j.srcPort) {
+			st.v("C07", "answer-not-to-true-source", rop.ID, fmt.Sprintf("rport=%v", askedRport), "the answer to %s went to %s:%d, the request's true source is %s:%d (rport requested: %v)", reqOp.ID, eip, eport, reqOp.SrcIP, j.srcPort, askedRport)
+		}
 		if !sameConn {
 			// the inbound connection is alive (nothing closed it): the answer belongs there
 			st.v("C12", "answer-not-on-request-connection", rop.ID, fmt.Sprintf("crossListener=%v", cross), "request %s arrived on connection %d; its answer was written to %s/%s (connection %d)", reqOp.ID, st.connOf[reqOp.ID], eproto, e.E.Dst, e.E.ConnID)
@@ -1522,6 +1546,12 @@ func (st *relayState) judgeRequest(op *Op, in *sipwire.Msg, ems []*Emitted, srcP
 		}
 		if !viaEqual(a, b) {
 			st.v("C06", "via-entry-changed", id, fmt.Sprintf("idx=%d", i), "received Via entry %d %q relayed as %q", i, inVias[i].Raw, rest[i].Raw)
+			// C07: "all other Via entries and parameters are untouched"
+			if i == 0 {
+				st.v("C07", "sender-via-touched-beyond-the-stamp", id, "", "the sender's Via entry %q was relayed as %q: something other than received/rport changed", inVias[i].Raw, rest[i].Raw)
+			} else {
+				st.v("C07", "other-via-entry-touched", id, fmt.Sprintf("idx=%d", min(i, 2)), "Via entry %d (not the sender's) %q was relayed as %q", i, inVias[i].Raw, rest[i].Raw)
+			}
 			break
 		}
 	}
